@@ -12,6 +12,7 @@ import SoupVerif.Model.Escape
 import SoupVerif.Model.Context
 import SoupVerif.Model.Pretty
 import SoupVerif.Model.Cache
+import SoupVerif.Model.Memo
 open SoupVerif
 
 def wildStripImpl (s : Str) : Str :=
@@ -145,6 +146,33 @@ def handle (req : Sx) : Sx :=
         (st, acc.2 ++ [.list [Sx.ofNat st.hits, Sx.ofNat st.misses, Sx.ofNat st.currsize]])
       .list (ops.foldl step (Cache.State.empty, [])).2
     | _, _, _ => .int (-9)
+  -- memo service: (14 (bidiL bidiR) doc ns scopePath (queries)); query (kind path (langs)): 0 default, 1 indeterminate, 2 lang
+  -- answers: memoised run on one state AND the pure answers
+  | .list [.int 14, .list [bl, br], d, n, sp, .list qs] =>
+    match bl.toListOf? Sx.toNat?, br.toListOf? Sx.toNat?, Codec.doc d, Codec.nsMap n, sp.toListOf? Sx.toNat? with
+    | some bl, some br, some d, some n, some sp =>
+      match d.locAt? sp with
+      | none => .int (-2)
+      | some scope =>
+        let c := mkCtx (mkEnv bl br) d.isXml n scope
+        let toQ : Sx → Option Memo.Query
+          | .list [.int k, p, .list langs] =>
+            match p.toListOf? Sx.toNat?, langs.mapM Sx.toStr? with
+            | some p, some langs =>
+              (d.locAt? p).map fun l =>
+                if k == 0 then Memo.Query.default l
+                else if k == 1 then Memo.Query.indeterminate l
+                else Memo.Query.lang l [⟨langs⟩]
+            | _, _ => none
+          | _ => none
+        match qs.mapM toQ with
+        | none => .int (-3)
+        | some qs =>
+          let enc : Memo.Answer → Sx
+            | .bool b => Sx.ofBool b
+            | .lang _ => .int (-1)
+          .list [.list ((Memo.run c Memo.State.init qs).1.map enc), .list (qs.map (fun q => enc (Memo.pureAnswer c q)))]
+    | _, _, _, _, _ => .int (-9)
   | _ => .list [.int (-10)]
 
 partial def loop (h : IO.FS.Stream) (out : IO.FS.Stream) : IO Unit := do
